@@ -45,10 +45,6 @@ Proof. revert k. induction l as [|x l IH]; intros [|k] H; simpl in *; try lia; [
 
 (* ------------------------------------------------------------------ PatternConcept *)
 
-Definition pc_measures_after (c : pcv) : list (str * jv) :=
-  dset s_Context_Hash (jhash (pv_hash c))
-       (fold_left dstep (pv_measures c) [(s_Supp, jnat (length (pv_extent_i c)))]).
-
 Definition pc_after (c : pcv) : pcv :=
   mk_pcv (pv_extent_i c) (pv_extent c) (pv_intent c) (pv_ptypes c) (pv_anames c)
          (pc_measures_after c) (pv_hash c).
@@ -313,3 +309,6 @@ Proof.
     change (dkey s_Arcs _) with (SOk (JArr (arcs_of ch))) at 1. cbn [sbind as_arr].
     rewrite Har. reflexivity.
 Qed.
+
+Lemma conceptv_after_measures c : concept_measures (conceptv_after c) = concept_measures_after c.
+Proof. destruct c; reflexivity. Qed.
